@@ -602,7 +602,7 @@ Proof.
       split; [|split; [|split]].
       * constructor; cbn [set_word wword wordlen].
         -- apply HW_set_word. cbn [set_prew wword wline].
-           eapply HW_set_line; [apply HW_set_prew; exact HB| |].
+           eapply HW_set_line; [exact HB| |].
            ++ rewrite <- Hword.
               apply (LineIs_fold_push (wword b) (wline b) [] Hwf (hw_line _ _ _ _ HB)).
            ++ assumption.
@@ -618,7 +618,7 @@ Proof.
       cbn [set_space wline set_prew].
       rewrite (LineIs_is_empty _ _ (hw_line _ _ _ _ HB)). cbn [bind is_pre].
       apply hard_tail; try assumption.
-      * apply HW_set_space, HW_set_prew. exact HB.
+      * apply HW_set_space. exact HB.
       * reflexivity.
   - (* non-empty current line *)
     unfold SpaceOK in HS. destruct HS as (Hws & (st & Hst) & Hcpos).
@@ -658,8 +658,8 @@ Proof.
       rewrite force_flush_nopad by (cbn; apply (hw_pad _ _ _ _ HB)).
       cbn [bind is_pre].
       apply hard_tail; try assumption.
-      * apply (HW_flush W (set_space (set_prew b false) None 0) ls (x :: cur0)).
-        apply HW_set_space, HW_set_prew. exact HB.
+      * apply (HW_flush W (set_space b None 0) ls (x :: cur0)).
+        apply HW_set_space. exact HB.
       * reflexivity.
 Qed.
 
